@@ -224,7 +224,7 @@ def check_netlist_clone(ctx, n, rng, st):
     for side in ("clone", "source"):
         tgt, other_u = (c, U) if side == "clone" else (n, Universe.of(c))
         before = snapshot.snap(other_u)
-        eng = gen_ops.Engine(rng, "uniform", "DEFAULT")
+        eng = gen_ops.Engine(rng, "uniform", "DEFAULT", fences=("bad_position",))     # (edits here are a means, not the subject)
         eng.u = Universe.of(tgt)
         eng.weights = dict(eng.weights)
         for k in ("new_netlist", "clone_small"):
@@ -446,6 +446,17 @@ def decorate(ctx, n, rng):
             e["VERILOG.parameters"] = {"W": str(rng.randint(1, 64)), "nested": {"l": [1, 2]}}
             k += 1
     ctx.count("elements_with_nested_data", k)
+    # data is the user's: a key the constructors stamp on every element (the naming-policy key) may have been deleted; the
+    # clone then has no such key either
+    k = 0
+    for e in els:
+        if ".NS" in e and rng.random() < 0.12:
+            try:
+                del e[".NS"]
+                k += 1
+            except Exception:  # noqa: BLE001
+                pass
+    ctx.count("elements_with_constructor_key_deleted", k)
 
 
 def leave_stragglers(ctx, n, rng):
